@@ -792,7 +792,9 @@ let run_own_case (oc : out_channel) (c : case) : unit =
             | Some (KEdge ((a, b), e)) -> Printf.sprintf "edge %s %s %d deg %d %d" (kv a) (kv b) (int_of_n e) (deg a) (deg b)
             | Some (KPath p) -> "path" ^ String.concat "" (List.map (fun u -> " " ^ kv u) (path_nodes p))
             | Some (KNodes l) -> "nodes " ^ String.concat " " (List.map kv l)
-            | Some (KGraph g) -> Printf.sprintf "graph %d" (List.length g)
+            | Some (KGraph g) ->
+                let ms = List.sort compare (List.map (fun (k, u) -> (int_of_n k, val_of u)) g) in
+                Printf.sprintf "graph %d%s" (List.length g) (String.concat "" (List.map (fun (k, v) -> Printf.sprintf " %d:%d" k v) ms))
             | None -> "empty"), [])
       | other -> ("unknown-step " ^ other, [])
       with Failure _ -> ("panic", []) in
